@@ -14,6 +14,7 @@
 import json
 
 import vlib
+import _tlcout
 
 
 def run(c):
@@ -26,6 +27,7 @@ def run(c):
         args = ["-n", 1200, "-flips", 64] if c.thorough else ["-n", 100, "-flips", 20]
         c.run_driver(drv, args + ["-out", trace])
     r = c.validate("SegVerifyTrace", "SegVerifyTrace.cfg", trace, timeout=3000)
+    drift = _tlcout.renorm(r)
     c.judge_trace(r, trace)
     st = r.stats
     if not c.replay and (st.get("accepted", 0) == 0 or st.get("rejected", 0) == 0):
